@@ -100,6 +100,8 @@ pub struct St<const N: usize> {
     pub seen_corrupted: std::collections::HashSet<String>,
     /// blob files re-opened by IoDriver::open (O_APPEND: the kernel ignores the offset of a positional write)
     pub oappend: std::collections::HashSet<String>,
+    /// per blob file: the largest physical length seen at the entry of a successful sync (from the tap)
+    pub synced: HashMap<String, u64>,
 }
 
 fn key_of<const N: usize>(hex: &str) -> ArrayKey<N> {
@@ -158,6 +160,19 @@ impl<const N: usize> St<N> {
 
     fn file_path(&self, kind: &str, id: &str) -> PathBuf {
         self.dir.join(format!("t.{}.{}", id, kind))
+    }
+
+    /// take the tap's events, remembering what successful syncs covered
+    #[cfg(pearl_verif)]
+    fn take_events(&mut self) -> Vec<pearl::verif_io::Event> {
+        let evs = pearl::verif_io::take_events();
+        for e in &evs {
+            if e.kind == pearl::verif_io::Kind::Sync && e.ok {
+                let c = self.synced.entry(e.path.clone()).or_insert(0);
+                if e.len > *c { *c = e.len; }
+            }
+        }
+        evs
     }
 
     /// the script itself damaged a file (the environment, not pearl): the C07 bookkeeping restarts from the damaged content
@@ -539,7 +554,7 @@ async fn exec<const N: usize>(st: &mut St<N>, ctx: &mut Ctx, toks: &[&str]) {
                 "off" => { verif_io::stop_recording(); ctx.emit("trace off"); }
                 _ => {
                     // dump: events since the last dump, paths relative to the work dir
-                    let evs = verif_io::take_events();
+                    let evs = st.take_events();
                     let base = st.dir.to_string_lossy().to_string();
                     let mut parts = Vec::new();
                     for e in evs {
@@ -562,7 +577,7 @@ async fn exec<const N: usize>(st: &mut St<N>, ctx: &mut Ctx, toks: &[&str]) {
             // C07 on the recorded events: appends to a blob file land exactly at its end, nothing else
             // ever writes into a blob file; mode `quiet` additionally demands no write event at all
             use pearl::verif_io;
-            let evs = verif_io::take_events();
+            let evs = st.take_events();
             let base = st.dir.to_string_lossy().to_string();
             let mut problems = Vec::new();
             let mut writes = 0;
@@ -653,6 +668,29 @@ async fn exec<const N: usize>(st: &mut St<N>, ctx: &mut Ctx, toks: &[&str]) {
         }
         #[cfg(pearl_verif)]
         ("clearfail", []) => { pearl::verif_io::clear_failpoints(); ctx.emit("clearfail"); }
+        #[cfg(pearl_verif)]
+        ("truedirty", []) => {
+            // un-synced bytes of the ACTIVE blob file computed from the tap alone: physical length minus what the
+            // last successful sync covered at its entry (independent of pearl's own size / synced_size counters)
+            let _ = st.take_events();
+            let mut best: Option<(usize, std::path::PathBuf)> = None;
+            if let Ok(rd) = std::fs::read_dir(&st.dir) {
+                for e in rd.flatten() {
+                    let name = e.file_name().to_string_lossy().to_string();
+                    if let Some(id) = name.strip_prefix("t.").and_then(|x| x.strip_suffix(".blob")).and_then(|x| x.parse::<usize>().ok()) {
+                        if best.as_ref().map_or(true, |(b, _)| id > *b) { best = Some((id, e.path())); }
+                    }
+                }
+            }
+            match best {
+                Some((_, p)) => {
+                    let len = std::fs::metadata(&p).map(|m| m.len()).unwrap_or(0);
+                    let cov = st.synced.get(&p.to_string_lossy().to_string()).copied().unwrap_or(0);
+                    ctx.emit(format!("truedirty {}", len.saturating_sub(cov)));
+                }
+                None => ctx.emit("truedirty none"),
+            }
+        }
         #[cfg(pearl_verif)]
         ("dirty", []) => {
             let s = need_storage!(st, ctx, c);
@@ -889,7 +927,7 @@ pub fn run_script<const N: usize>(script: &str) -> String {
     }
     let live = crate::LIVE_PATH.lock().unwrap().clone().and_then(|p| std::fs::File::create(p).ok());
     let mut ctx = Ctx { out: String::new(), blooms: HashMap::new(), raws: HashMap::new(), live };
-    let mut st = St::<N> { cfg, dir: dir.clone(), storage: None, written: HashMap::new(), auto_quiesce: true, snaps: HashMap::new(), eof: HashMap::new(), eof_loose: Default::default(), seen_corrupted: Default::default(), oappend: Default::default() };
+    let mut st = St::<N> { cfg, dir: dir.clone(), storage: None, written: HashMap::new(), auto_quiesce: true, snaps: HashMap::new(), eof: HashMap::new(), eof_loose: Default::default(), seen_corrupted: Default::default(), oappend: Default::default(), synced: HashMap::new() };
     rt.block_on(async {
         for line in script.lines() {
             let line = line.trim();
